@@ -23,7 +23,7 @@ ASSUMPTIONS = [
     "fake Device/Storage/Interface classes are the repository's test fakes (tests/annet/test_mesh/fakes.py)",
     "handlers set address families and shared options on the session only (per-peer families would legitimately differ between the two ends)",
 ]
-FLOORS = {"quick": {"topologies": 250, "executions": 3000, "mirrored_pairs": 600, "permutations_compared": 1500, "conflicts_expected": 30, "merge_law_checks": 3000, "shared_handler_constants_checked": 200, "peer_options_checked": 300, "shared_executor_runs": 150, "shared_executor_runs_with_differently_named_link_ends": 80, "linklocal_cases_with_two_neighbours_sharing_an_address": 25},
+FLOORS = {"quick": {"topologies": 250, "executions": 3000, "mirrored_pairs": 600, "permutations_compared": 1500, "conflicts_expected": 30, "merge_law_checks": 3000, "shared_handler_constants_checked": 200, "peer_options_checked": 300, "shared_executor_runs": 150, "shared_executor_runs_with_differently_named_link_ends": 80, "linklocal_cases_with_two_neighbours_sharing_an_address": 25, "cases_with_family_only_device_handlers": 60, "family_only_handler_devices": 60},
           "thorough": {"topologies": 9000, "executions": 100000, "mirrored_pairs": 20000, "permutations_compared": 50000, "conflicts_expected": 1000, "merge_law_checks": 100000, "shared_handler_constants_checked": 7000, "peer_options_checked": 10000, "shared_executor_runs": 5000, "shared_executor_runs_with_differently_named_link_ends": 2500, "linklocal_cases_with_two_neighbours_sharing_an_address": 800}}
 
 
@@ -179,6 +179,8 @@ def make_registry(rules, order):
                 flt = [getattr(Left, lg).cast_(int) < 1000, getattr(Right, rg).cast_(int) >= 0]
             elif r["filter"] == "ne":
                 flt = [getattr(Left, lg).cast_(int) != 99]
+            elif r["filter"] == "mixed":
+                flt = [getattr(Left, lg).cast_(int) < getattr(Right, rg).cast_(str)]  # int < str: the comparison cannot be made
 
             def handler(left, right, session, r=r, idx=idx):
                 li, ri = first_int(left.match), first_int(right.match)
@@ -241,6 +243,11 @@ def make_registry(rules, order):
             reg.virtual(r["mask"], r["num"])(vhandler)
         elif r["type"] == "device":
             def dhandler(dev, r=r):
+                if r.get("family_only"):
+                    dev.ipv4_unicast.multipath = r["multipath"]
+                    if r.get("loops") is not None:
+                        dev.ipv6_unicast.loops = r["loops"]
+                    return
                 dev.local_as = r["local_as"]
                 dev.vrf[r["vrf"]].rt_import = (r["rt"],)
                 dev.vrf[r["vrf"]].groups["G"].mtu = 1400
@@ -344,10 +351,26 @@ def expected_iface(rule, ports):
     return ports[0]
 
 
-def check_case(seed, acc, ll=False):
+def check_case(seed, acc, ll=False, ext=False):
     rng = random.Random(seed)
     topo = gen_topology(rng)
     rules = gen_rules(rng, topo)
+    if ext:
+        erng = random.Random(seed ^ 0xE87)
+        drs = [r_ for r_ in rules if r_["type"] == "direct" and r_["role"] == "base"]
+        if drs and erng.random() < 0.7:
+            # a rule whose filter compares an int group with a str group by order: the comparison cannot be made, the rule does not apply
+            # (its handler would hand out other AS numbers, so any application shows)
+            b_ = erng.choice(drs)
+            rules.append(dict(b_, role="never", filter="mixed", asn_l=b_["asn_l"] + 7, asn_r=b_["asn_r"] + 7, description=None, peer_opts={}, mtu=None))
+        masks = sorted({r_["mask"] for r_ in rules if r_["type"] == "device"}) or ["leaf{m}", "spine{n}"]
+        m_ = erng.choice(masks)
+        v_ = erng.choice([8, 16, 32])
+        # device handlers that set nothing but per-family global options
+        rules.append({"type": "device", "mask": m_, "role": "family", "family_only": True, "multipath": v_, "loops": erng.choice([None, 2])})
+        if erng.random() < 0.4:
+            rules.append({"type": "device", "mask": m_, "role": "family", "family_only": True, "multipath": v_ if erng.random() < 0.5 else v_ + 1, "loops": None})
+        acc.count("cases_with_family_only_device_handlers")
     if ll:
         # link-local style numbering: all neighbours of a device carry the same address text on their end; sessions stay distinct per neighbour.
         # (one link per device pair: two parallel sessions to one neighbour with one address would be the same session)
@@ -365,7 +388,7 @@ def check_case(seed, acc, ll=False):
             acc.count("linklocal_cases_with_two_neighbours_sharing_an_address")
     try:
         w = _check_case(seed, acc, rng, topo, rules)
-        w["ll"] = ll
+        w["ll"], w["ext"] = ll, ext
     finally:
         mine = [k for k in SHARED_FAMILIES if k[0] == id(rules)]
         for k in mine:
@@ -389,7 +412,10 @@ def _check_case(seed, acc, rng, topo, rules):
     conflict_expected = any(r["type"] == "direct" and r["role"] == "extra" and r["mtu"] is not None and
                             any(b["role"] == "base" and b["left"] == r["left"] and b["mtu"] is not None and b["mtu"] != r["mtu"] for b in rules if b["type"] == "direct")
                             for r in rules)
-    conflict_expected = conflict_expected or len({r["local_as"] for r in rules if r["type"] == "device"}) > 1
+    conflict_expected = conflict_expected or len({r["local_as"] for r in rules if r["type"] == "device" and not r.get("family_only")}) > 1
+    fam = [r for r in rules if r["type"] == "device" and r.get("family_only")]
+    fam_conflict = len({r["multipath"] for r in fam}) > 1
+    conflict_expected = conflict_expected or fam_conflict
     if conflict_expected:
         acc.count("conflicts_expected")
     # unexpected exception types
@@ -428,6 +454,27 @@ def _check_case(seed, acc, rng, topo, rules):
                 which = "peers" if a[1] != b[1] else ("global_options" if a[2] != b[2] else "interface_addresses")
                 acc.violation("C15/result-depends-on-registration-order", "the outcome of execute_for depends on the order in which handlers were registered",
                               dict(w, device=dname, order=list(perm), differs_in=which))
+                return w
+    # ---- per-family global options set by device handlers that set nothing else -------------------------------------
+    if fam:
+        for dname, r_ in res0.items():
+            if tmatch(fam[0]["mask"], dname) is None:
+                continue
+            acc.count("family_only_handler_devices")
+            if fam_conflict:
+                if r_[0] != "error":
+                    acc.violation("C15/conflict-not-reported", "two device handlers give one single-valued option different values and no conflict is reported",
+                                  dict(w, device=dname, handlers=fam))
+                    return w
+                continue
+            if r_[0] != "ok":
+                continue
+            got_mp = r_[2].get("ipv4_unicast", {}).get("multipath")
+            want_lp = next((x["loops"] for x in fam if x.get("loops") is not None), None)
+            got_lp = r_[2].get("ipv6_unicast", {}).get("loops")
+            if got_mp != fam[0]["multipath"] or (want_lp is not None and got_lp != want_lp):
+                acc.violation("C15/global-family-option-lost", "an option a device handler set on a per-family global object is missing from the device's global options",
+                              dict(w, device=dname, expected_multipath=fam[0]["multipath"], got_multipath=got_mp, expected_loops=want_lp, got_loops=got_lp))
                 return w
     # ---- one executor serving all devices gives every device what its own fresh executor gives ---------------------
     if all(r[0] == "ok" for r in res0.values()):
@@ -634,7 +681,7 @@ def run_shard(spec, acc):
         w = spec["witness"]
         if w.get("merge"):
             return run_merge({"tier": "quick", "seed": 0}, acc)
-        check_case(w["seed"], acc, ll=bool(w.get("ll")))
+        check_case(w["seed"], acc, ll=bool(w.get("ll")), ext=bool(w.get("ext")))
         return
     if spec["mode"] == "merge":
         return run_merge(spec, acc)
@@ -647,3 +694,5 @@ def run_shard(spec, acc):
             acc.sample({"topology": w["topology"], "rules": w["rules"][:3]})
         if j % 4 == 1:
             check_case(rng.randrange(1 << 48), acc, ll=True)
+        if j % 4 == 3:
+            check_case(rng.randrange(1 << 48), acc, ext=True)
